@@ -80,6 +80,15 @@ func NewRequestContext(ctx context.Context, req *envoy_auth.CheckRequest) *Reque
 		upstreamCookies: make(map[string]string),
 	}
 
+	// envoy sends the request target in the path attribute, i.e. including the query-string. Its query
+	// attribute "is always empty, and exists for compatibility reasons".
+	if len(reqCtx.reqURL.RawQuery) == 0 {
+		if path, query, found := strings.Cut(reqCtx.reqURL.Path, "?"); found {
+			reqCtx.reqURL.Path = path
+			reqCtx.reqURL.RawQuery = query
+		}
+	}
+
 	// envoy sends the path as it appears in the request line, i.e. percent-encoded. As with the
 	// HTTP services, the pipeline sees the decoded path and the encoded form is kept as raw path.
 	if path, err := url.PathUnescape(reqCtx.reqURL.Path); err == nil {
